@@ -32,7 +32,8 @@ Transcribed from (snapshot ef0888e + fix commits):
                      not counted)
 
 Abstractions (see checks/C07.json): messages are indistinguishable points (counts, FIFO edges); a pipeline is a
-CHAIN (node i feeds node i+1; forks/joins are not modelled); every node passes every point on; external calls
+CHAIN (node i feeds node i+1) in this file; trees (forks: several child edges per node) are Model/C07Tree.lean, which reuses
+the node processes and the stopping goroutine defined here; joins/unions (several parents) are not modelled; every node passes every point on; external calls
 (cli.Write, Handler.Handle, the HTTP POST) are atomic — a slow output is a schedule that delays that action;
 `flush()` (request + writeAll + acknowledgement) is one action; the writer is quiescent once the stop is
 requested (points accepted after the stop are outside the property); the UDF process is one stage.
